@@ -171,64 +171,40 @@ def r5(ctx):
 
 
 def r6(ctx):
-    """db[key]: evaluated abstractly for a string key and for a Feature key; on each path the statement executed, the value
-    bound to its placeholder, and the outcome for an absent / a present row are compared with the property."""
-    from ..absint import Interp, Sym, Opaque, ACond, Unsupported
+    """db[key], evaluated on a created model database: a stored key (given as a string or as a Feature) returns the
+    feature stored under exactly that key, an absent one raises FeatureNotFoundError."""
+    from . import scen
     f = require_func(ctx, "interface.FeatureDB.__getitem__")
-    key = [p for p in f.params if p != "self"][0]
-    sch = S.schema_from_script(ctx.folder.const("constants", "SCHEMA"))
-    n_paths = 0
-    for label, kv, want_bind in (("a string key", Sym("k", "str", True), "k"), ("a Feature key", Opaque("F", "Feature"), "F.id")):
-        try:
-            traces = Interp(ctx).run(f, {key: kv}, self_obj=Opaque("self", "obj"))
-        except Unsupported as e:
-            ctx.require(False, "__getitem__ outside the analysable subset: %s" % e)
-        for t in traces:
-            n_paths += 1
-            ex = t.executes()
-            rowdec = [d for d in t.decisions if isinstance(d[0], (ACond, Opaque)) and "fetchone" in repr(d[0])]
-            absent = None
-            for d in rowdec:
-                v, out = d[0], d[1]
-                neg = False
-                while isinstance(v, ACond) and v.op == "not":
-                    v, neg = v.left, not neg
-                if isinstance(v, ACond) and v.op == "is":
-                    absent = (out != neg)
-                elif isinstance(v, Opaque):
-                    absent = not out
-            ok_one = len(ex) >= 1
-            ctx.ob("R6", ok_one, "db[key] runs a look-up statement (%s)" % label, func=f, sig="%s: %d statement(s)" % (label, len(ex)), nontrivial=False)
-            for e in ex:
-                sqltext_ = e[1].render() if hasattr(e[1], "render") else e[1]
-                try:
-                    st = S.parse(sqltext_ if isinstance(sqltext_, str) else str(sqltext_))
-                except S.SQLError as err:
-                    ctx.ob("R6", False, "the look-up statement parses", func=f, sig="%s: look-up %s" % (label, err))
-                    continue
-                w = st.where if st.verb == "SELECT" else None
-                ok = st.verb == "SELECT" and st.tables() == ["features"] and w is not None and w[0] == "cmp" and w[1] in ("=", "==") and \
-                    {w[2][0], w[3][0]} == {"col", "param"} and (w[2] if w[2][0] == "col" else w[3])[2].lower() == "id"
-                ctx.ob("R6", ok, "the look-up is an exact match on the primary key", func=f,
-                       sig="%s: look-up WHERE %s" % (label, S.show(w) if w is not None else None))
-                params = e[2]
-                bound = [getattr(x, "name", x) for x in params] if isinstance(params, (list, tuple)) else None
-                okb = bound is not None and len(bound) == 1 and (bound[0] == want_bind or (isinstance(bound[0], str) and bound[0].startswith(want_bind + ".decode")))
-                ctx.ob("R6", okb, "the look-up binds the requested key (%s)" % ("a Feature is replaced by its id" if want_bind == "F.id" else "as given"), func=f,
-                       sig="%s: look-up binds %s" % (label, bound))
-            if absent is True:
-                ok = t.result[0] == "raise" and t.result[1] == "FeatureNotFoundError"
-                ctx.ob("R6", ok, "an absent key raises FeatureNotFoundError", func=f,
-                       sig="%s, no row: %s" % (label, "raises FeatureNotFoundError" if ok else "%s %s" % (t.result[0], t.result[1])))
-            elif absent is False:
-                cons = [e for e in t.events if e[0] == "construct" and e[1] == "feature.Feature"]
-                ok = t.result[0] == "return" and len(cons) == 1 and "fetchone" in repr(cons[0][3].get("**"))
-                ctx.ob("R6", ok, "a present key returns the Feature built from the stored row", func=f,
-                       sig="%s, row found: %s" % (label, "Feature(**row)" if ok else "%s %r" % (t.result[0], t.result[1])))
-            else:
-                ctx.ob("R6", False, "the outcome of the look-up depends on whether a row was found", func=f,
-                       sig="%s: result %s %r does not depend on the fetched row" % (label, t.result[0], t.result[1]))
-    ctx.floor("R6", n_paths, 4, "paths of __getitem__ (string/Feature key x absent/present)")
+    lines = scen.gff_lines() + [scen.feature("Q1", "exon", 5, 6, {"ID": ["e2x"], "Parent": ["t1"]}), scen.feature("Q2", "exon", 7, 8, {"ID": ["E2"], "Parent": ["t1"]})]
+    im, t = scen.run_create(ctx, "_GFFDBCreator", lines)
+    if not scen.returned(ctx, t, "create()", func=f, rule="R6"):
+        return
+    it, me, conn, t0 = scen.open_feature_db(ctx, im.db)
+    if not scen.returned(ctx, t0, "FeatureDB(dbfn)", func=f, rule="R6"):
+        return
+    by_id = {x.attrs["id"]: x for x in lines}
+    auto = [x.attrs["id"] for x in lines if "ID" not in x.attrs["attributes"]]
+    n = 0
+    for key in ["e2", "e2x", "E2", "g1"] + auto[:1]:
+        for form in ("string", "Feature"):
+            arg = key if form == "string" else scen.feature("probe", "x", 1, 2, {}, id=key)
+            t = scen.call_method(ctx, it, me, "interface.FeatureDB.__getitem__", key=arg)
+            n += 1
+            got = t.result[1] if t.result[0] == "return" else None
+            want = by_id[key]
+            ok = hasattr(got, "attrs") and got.attrs.get("id") == key and got.attrs.get("start") == want.attrs["start"] and got.attrs.get("featuretype") == want.attrs["featuretype"] \
+                and got.attrs.get("attributes") == want.attrs["attributes"]
+            ctx.ob("R6", ok, "a present key (%s form) returns exactly the feature stored under it (exact match: 'e2', 'e2x' and 'E2' are three features)" % form, func=f,
+                   sig="db[%r as %s] is the stored feature" % (key, form) if ok else "db[%r as %s] -> %s %s" % (key, form, t.result[0], getattr(got, "attrs", {}).get("id", t.result[1])))
+    for key in ("absent", "e", "e2 ", ""):
+        for form in ("string", "Feature"):
+            arg = key if form == "string" else scen.feature("probe", "x", 1, 2, {}, id=key)
+            t = scen.call_method(ctx, it, me, "interface.FeatureDB.__getitem__", key=arg)
+            n += 1
+            ok = t.result[0] == "raise" and str(t.result[1]).split(".")[-1] == "FeatureNotFoundError"
+            ctx.ob("R6", ok, "an absent key (%s form) raises FeatureNotFoundError" % form, func=f,
+                   sig="db[%r as %s] raises FeatureNotFoundError" % (key, form) if ok else "db[%r as %s] -> %s %s" % (key, form, t.result[0], getattr(t.result[1], "name", t.result[1])))
+    ctx.floor("R6", n, 10, "look-ups evaluated")
 
 
 def check(ctx):
